@@ -97,6 +97,7 @@ type dsut struct {
 	byNode   map[*listz.DNode[int]]*handle
 	allowNew bool // the last operation copies a list: unseen nodes may appear (paired by position)
 	quiet    bool // building a fixture: skip the traversal comparison
+	window   bool // unobserved-operation window: only the mutators' own results are compared (windows.go)
 	hash     uint64
 	nextVal  int
 	keepText bool
@@ -506,6 +507,11 @@ func (s *dsut) apply(op dop) bool {
 		op.h.e.Value = op.v
 	}
 	c.Logf("%s%s", txt, res)
+	if s.window {
+		// no observing call at all; nodes created by a copy stay unpaired (allowNew is kept)
+		// until the check that closes the window
+		return !c.Failed()
+	}
 	if s.quiet {
 		s.allowNew = false
 		return !c.Failed()
